@@ -16,7 +16,7 @@ from mirsmt.engine import *
 from mirsmt.models import M, It
 from mirsmt import native, strings
 from mirsmt.strings import SStr, SChoice, SChar, valid_char
-from mirsmt.tmpl import short_fn
+from mirsmt.tmpl import short_fn, PatStr
 
 TOKENS = ['Slot', 'Ident', 'PVar', 'ColonEquals', 'LParen', 'RParen', 'LBracket', 'RBracket']
 IDENTS = {'Lf': ['f', 'g', 'h', 'zz'], 'Lb': ['var', 'app', 'lam', 'k', 'u', 'j', 'zz']}
@@ -69,10 +69,17 @@ def run_tokens(S_, lang, n, stats, findings):
     def entry(ex_):
         toks, meta = mk_tokens(ex_, n, lang)
         r = ex_.call(pp, [SliceRef(toks, 0, n)])
-        wf = None
+        wf = None; re_panic = None
         if r.disc == 0:      # Ok((pattern, rest))
             wf = pattern_wf(ex_, R, r.payload.f[0].f[0])
-        return (r.disc, wf, meta)
+            if len(r.payload.f[0].f[1]) == 0 and wf:
+                # RecExpr::parse(text) from MIR with its inner Pattern::parse(text) answered by this very parse result (PatStr): whatever
+                # the source does with a parsed pattern to obtain a term must not panic
+                d0 = ex_.depth()
+                try: ex_.call(R.M('RecExpr::parse'), [PatStr(r.payload.f[0].f[0])])
+                except Panic as pn:
+                    ex_.unwind_to(d0); re_panic = (pn.msg, pn.where)
+        return (r.disc, wf, meta, re_panic)
     # parse_pattern is the whole of Pattern::parse after tokenisation (the RemainingRest test is a length comparison)
     for p in ex.explore(entry):
         stats['paths'] += 1
@@ -81,7 +88,9 @@ def run_tokens(S_, lang, n, stats, findings):
             meta = [(z3.BitVec('tk%d' % i, 64), SChoice(z3.BitVec('id%d' % i, 8), IDENTS[lang]), z3.BitVec('ts%d' % i, 32)) for i in range(n)]
             findings.append({'level': 'tokens', 'lang': lang, 'n': n, 'kind': 'panic', 'msg': p['result']['msg'], 'where': short_fn(p['result']['where'] or ''), 'text': token_text(m, meta)})
         else:
-            disc, wf, meta = p['result']
+            disc, wf, meta, re_panic = p['result']
+            if re_panic:
+                findings.append({'level': 'tokens:recexpr', 'lang': lang, 'n': n, 'kind': 'panic', 'msg': 'RecExpr::parse: ' + str(re_panic[0]), 'where': short_fn(re_panic[1] or 'pattern_to_re'), 'text': token_text(ex_model(p['pc']), meta)})
             if disc == 0 and wf is not False and stats.get('rt') is not None:
                 stats['rt'].append((lang, token_text(ex_model(p['pc']), meta)))
             if disc == 0 and wf is False:
@@ -142,7 +151,7 @@ def string_text(model, cs):
 def run_text(S_, lang, n, which, stats, findings):
     R = S_.resolver; R.tymap.clear(); R.tymap.update({'L': lang})
     ex = S_.executor(); ex.stub_named = True
-    fn = {'tokenize': R.M('tokenize'), 'pattern': R.M('Pattern::parse'), 'multi': R.M('MultiPattern::parse')}[which]
+    fn = {'tokenize': R.M('tokenize'), 'pattern': R.M('Pattern::parse'), 'multi': R.M('MultiPattern::parse'), 'recexpr': R.M('RecExpr::parse')}[which]
     def entry(ex_):
         ex_._named_n = 0
         s, cs = mk_string(ex_, n)
@@ -169,7 +178,7 @@ def classify(f):
 def native_replay(f, profile='release'):
     cps = f.get('codepoints')
     if cps is None: cps = [ord(c) for c in f['text']]
-    kind = 'multi' if f['level'].endswith('multi') else 'pattern'
+    kind = 'multi' if f['level'].endswith('multi') else ('recexpr' if f['level'].endswith('recexpr') else 'pattern')
     txt = 'case parse:r %s %s\ntext %s\n' % (f['lang'], kind, ' '.join(str(c) for c in cps))
     r = native.run_cases(txt, profile).get('parse:r')
     return r
@@ -198,6 +207,7 @@ def run(tier, seed=0):
     for n in range(0, NTXT + 1): plan.append(('text:tokenize', 'Lb', n))
     for n in range(0, NTXT + 1): plan.append(('text:pattern', 'Lb', n))
     for n in range(0, NTXT + 1): plan.append(('text:multi', 'Lb', n))
+    for n in range(0, NTXT + 1): plan.append(('text:recexpr', 'Lb', n))
     for kind, lang, n in plan:
         before = stats['paths']; nf = len(findings); t1 = time.time()
         try:
